@@ -78,6 +78,15 @@ Record ll_case := mk_ll {
   ll_np : list (Z * Z * float * float); ll_da : list (Z * Z * float * float); ll_has_da : bool
 }.
 
+(* entry (i, j) of map (map invT) g is invT (entry (i, j) of g)  (Proofs/C01_grid.v: c01_lonlats_entry):
+   the oracle table is consulted at the sampled entries only *)
+Definition ll_sample_ok (inv : float * float -> float * float) (g : list (list (float * float))) (s : Z * Z * float * float) : bool :=
+  let '(i, j, lon, lat) := s in
+  (i <? Z.of_nat (length g)) && (j <? Z.of_nat (length (nth (Z.to_nat i) g []))) &&
+  ff_eqb (inv (nth (Z.to_nat j) (nth (Z.to_nat i) g []) (PrimFloat.nan, PrimFloat.nan))) (lon, lat).
+Definition ll_grid_ok inv (g : list (list (float * float))) (nr nc : Z) (samples : list (Z * Z * float * float)) : bool :=
+  grid_shape_ok g nr nc && forallb (ll_sample_ok inv g) samples.
+
 Definition chk_lonlat (c : ll_case) : bool :=
   let a := ll_area c in
   let invT := lookup (ll_T c) in let invP := lookup (ll_P c) in let fwdP := lookup (ll_F c) in
@@ -94,7 +103,7 @@ Definition chk_lonlat (c : ll_case) : bool :=
                      Bool.eqb (match oc with None => true | _ => false end) cm &&
                      Bool.eqb (match orow with None => true | _ => false end) rm)) (ll_idx_arr c) &&
   forallb (fun q => let '(lon, lat, res) := q in ozz_eqb (c01_index_from_lonlat_scalar F64 fwdP a lon lat) res) (ll_idx_sc c) &&
-  grid_ok (c01_lonlats F64 invT a (ll_rows c) (ll_cols c)) (Z.of_nat (length (ll_rows c))) (Z.of_nat (length (ll_cols c))) (ll_np c) &&
+  ll_grid_ok invT (c01_coords_numpy F64 a (ll_rows c) (ll_cols c)) (Z.of_nat (length (ll_rows c))) (Z.of_nat (length (ll_cols c))) (ll_np c) &&
   (negb (ll_has_da c) ||
-   grid_ok (c01_lonlats_dask F64 invT a (ll_rch c) (ll_cch c) (ll_rows c) (ll_cols c))
-           (Z.of_nat (length (ll_rows c))) (Z.of_nat (length (ll_cols c))) (ll_da c)).
+   ll_grid_ok invT (c01_coords_dask F64 a (ll_rch c) (ll_cch c) (ll_rows c) (ll_cols c))
+              (Z.of_nat (length (ll_rows c))) (Z.of_nat (length (ll_cols c))) (ll_da c)).
